@@ -129,7 +129,13 @@ DocKind(d) == IF d.c = "comment" THEN "" ELSE d.k
 \* template programs: what the payload (data.v) of a document is computed from
 IncProgs == {"INC", "INC2", "TPL", "TPL2"}       \* need the named template "shared"
 ErrProgs == {"ENV", "EXPANDENV"}                 \* functions that must not exist
-Progs    == {"LIT", "VAL", "FGET", "FGLOB", "FOUT", "DNS"} \cup IncProgs \cup ErrProgs
+\* programs that write / read render state shared by the files of a chart (sprig `set` on .Values):
+\*   SET  records "s<rank>" under .Values.state;  GET prints .Values.state (default "unset");
+\*   GETS (parent files only) prints the SUBCHART's state through .Values.s1.state;
+\*   MUT  prefixes the name of every element of the default list .Values.ports with the release name and prints it;
+\*   FAIL aborts the render with its own message
+StateProgs == {"SET", "GET", "GETS", "MUT"}
+Progs    == {"LIT", "VAL", "FGET", "FGLOB", "FOUT", "DNS", "FAIL"} \cup IncProgs \cup ErrProgs \cup StateProgs
 
 FileOf(inp, p) == inp.files[CHOOSE j \in DOMAIN inp.files : inp.files[j].p = p]
 TplPaths(inp)  == {inp.files[j].p : j \in DOMAIN inp.files}
@@ -154,8 +160,34 @@ Payload(g, ch, w, dns) ==
     [] g = "DNS"   -> IF dns THEN "*" ELSE "[]"       \* "*" = not judged (resolution was enabled)
     [] OTHER       -> "?"
 
-DocPayload(inp, id, w) ==
-  LET d == DocAt(inp, id) IN IF d.c = "comment" THEN "" ELSE Payload(d.g, PChart[id[1]], w, inp.dns)
+(* The files of a chart share one scope (.Values is ONE map), and the engine executes the files in   *)
+(* parse order (sortTemplates), every document of a file top to bottom: the payload of a document   *)
+(* is a function of everything executed before it.  st = [chart |-> [s : recorded state, m : how    *)
+(* often the default list was mutated]].                                                            *)
+RECURSIVE RelPrefix(_)
+RelPrefix(k) == IF k = 0 THEN "" ELSE "rel-" \o RelPrefix(k - 1)
+InitState == [ch \in {"p", "s1", "s2"} |-> [s |-> "unset", m |-> 0]]
+
+StepPay(inp, id, w, st) ==
+  LET d == DocAt(inp, id)  ch == PChart[id[1]] IN
+  CASE d.c = "comment" -> [v |-> "", st |-> st]
+    [] d.g = "SET"  -> [v |-> "set", st |-> [st EXCEPT ![ch].s = "s" \o ToString(id[1])]]
+    [] d.g = "GET"  -> [v |-> st[ch].s, st |-> st]
+    [] d.g = "GETS" -> [v |-> st["s1"].s, st |-> st]
+    [] d.g = "MUT"  -> [v |-> RelPrefix(st[ch].m + 1) \o "http", st |-> [st EXCEPT ![ch].m = @ + 1]]
+    [] OTHER        -> [v |-> Payload(d.g, ch, w, inp.dns), st |-> st]
+
+RECURSIVE PayFold(_, _, _, _, _)
+PayFold(inp, ids, w, st, acc) ==
+  IF ids = <<>> THEN acc
+  ELSE LET r == StepPay(inp, Head(ids), w, st) IN PayFold(inp, Tail(ids), w, r.st, acc @@ (Head(ids) :> r.v))
+
+\* the documents in execution order, given the order in which the files were parsed
+ExecFiles(inp, parseOrder) == SelectSeq(parseOrder, LAMBDA p : p \in TplPaths(inp))
+ExecDocs(inp, parseOrder) ==
+  LET fo == ExecFiles(inp, parseOrder) IN
+  FlattenSeq([j \in DOMAIN fo |-> [i \in DOMAIN FileOf(inp, fo[j]).docs |-> <<fo[j], i>>]])
+PayMap(inp, parseOrder, w) == PayFold(inp, ExecDocs(inp, parseOrder), w, InitState, <<>>)
 
 NoteText(p) == "N-" \o PChart[p]
 RECURSIVE JoinNotes(_)
@@ -164,10 +196,19 @@ NotesPassing(inp) == {p \in Range(inp.notes) : inp.subNotes \/ p = ParentNotes}
 
 (* ----- the pipeline as functions of explicit iteration orders ------------- *)
 
+FailingDoc(d, w) == d.g = "FAIL" \/ (d.g \in IncProgs /\ w = 0)
 RenderErr(inp, w) ==
   IF ProgsUsed(inp) \cap ErrProgs # {} THEN "parse"
-  ELSE IF ProgsUsed(inp) \cap IncProgs # {} /\ w = 0 THEN "exec"
+  ELSE IF \E id \in AllDocs(inp) : FailingDoc(DocAt(inp, id), w) THEN "exec"
   ELSE "none"
+\* the file the reported error names: all files are parsed, then executed, in parse order; the first failure ends it
+FirstWhere(seq, P(_)) == LET t == SelectSeq(seq, P) IN IF t = <<>> THEN 0 ELSE t[1]
+RenderErrAt(inp, parseOrder, w) ==
+  CASE RenderErr(inp, w) = "parse" ->
+         FirstWhere(ExecFiles(inp, parseOrder), LAMBDA p : \E i \in DOMAIN FileOf(inp, p).docs : FileOf(inp, p).docs[i].g \in ErrProgs)
+    [] RenderErr(inp, w) = "exec" ->
+         FirstWhere(ExecFiles(inp, parseOrder), LAMBDA p : \E i \in DOMAIN FileOf(inp, p).docs : FailingDoc(FileOf(inp, p).docs[i], w))
+    [] OTHER -> 0
 
 \* SplitManifests: whitespace-only documents get no entry
 Entries(f) == {i \in DOMAIN f.docs : f.docs[i].c # "blank"}
@@ -180,9 +221,9 @@ HooksOfFile(f, order)   == [j \in DOMAIN SelectSeq(order, LAMBDA i : f.docs[i].c
 
 KindSort(inp, ids, Key(_)) == Vals(SortKeyed([j \in DOMAIN ids |-> [key |-> Key(DocKind(DocAt(inp, ids[j]))), val |-> ids[j]]]))
 
-ManEntry(inp, id, w)  == [p |-> id[1], i |-> id[2], v |-> DocPayload(inp, id, w)]
-HookEntry(inp, id, w) == LET c == DocAt(inp, id).c IN
-  [p |-> id[1], i |-> id[2], v |-> DocPayload(inp, id, w), ev |-> HookEv(c), w |-> HookW(c), pol |-> HookPol(c)]
+ManEntry(inp, id, pm)  == [p |-> id[1], i |-> id[2], v |-> pm[id]]
+HookEntry(inp, id, pm) == LET c == DocAt(inp, id).c IN
+  [p |-> id[1], i |-> id[2], v |-> pm[id], ev |-> HookEv(c), w |-> HookW(c), pol |-> HookPol(c)]
 
 \* chartutil.ProcessDependencies (processDependencyEnabled): subcharts listed in Chart.yaml are re-added in
 \* the listed order (every subchart is listed or none is); unlisted ones stay in the order LoadFiles left
@@ -200,21 +241,23 @@ RefSchema(inp) == CASE inp.schema = "none" -> "accept" [] inp.schema = "local" -
 RefParseOrder(inp) == SortTemplates(AnySeq(TplPaths(inp) \cup Range(inp.parts) \cup Range(inp.notes)))
 RefWinner(inp)     == Winner(RefParseOrder(inp), Range(inp.parts))
 
-NoOut(e) == [err |-> e, manifest |-> <<>>, hooks |-> <<>>, notes |-> "", crds |-> <<>>]
+NoOut(e, at) == [err |-> e, errAt |-> at, manifest |-> <<>>, hooks |-> <<>>, notes |-> "", crds |-> <<>>]
 
 F(inp) ==
-  IF RefSchema(inp) # "accept" THEN NoOut("schema")
-  ELSE LET w == RefWinner(inp)
+  IF RefSchema(inp) # "accept" THEN NoOut("schema", 0)
+  ELSE LET po == RefParseOrder(inp)
+           w == RefWinner(inp)
            e == RenderErr(inp, w) IN
-  IF e # "none" THEN NoOut(e)
+  IF e # "none" THEN NoOut(e, RenderErrAt(inp, po, w))
   ELSE LET fo  == SortInts(AnySeq(TplPaths(inp)))
+           pm  == PayMap(inp, po, w)
            gen == FlattenSeq([j \in DOMAIN fo |-> GenericOfFile(FileOf(inp, fo[j]), SortInts(AnySeq(Entries(FileOf(inp, fo[j])))))])
            hk  == FlattenSeq([j \in DOMAIN fo |-> HooksOfFile(FileOf(inp, fo[j]), SortInts(AnySeq(Entries(FileOf(inp, fo[j])))))])
            gs  == KindSort(inp, gen, InstKey)
            hs  == KindSort(inp, hk, InstKey)
-       IN [err |-> "none",
-           manifest |-> [j \in DOMAIN gs |-> ManEntry(inp, gs[j], w)],
-           hooks |-> [j \in DOMAIN hs |-> HookEntry(inp, hs[j], w)],
+       IN [err |-> "none", errAt |-> 0,
+           manifest |-> [j \in DOMAIN gs |-> ManEntry(inp, gs[j], pm)],
+           hooks |-> [j \in DOMAIN hs |-> HookEntry(inp, hs[j], pm)],
            notes |-> JoinNotes(SortInts(AnySeq(NotesPassing(inp)))),
            crds |-> CrdOrder(inp, DepsAfterProcess(inp, inp.subs))]
 
